@@ -32,6 +32,7 @@ type End struct {
 	cond     *sync.Cond
 	segs     [][]byte // inbound segments not yet read
 	queued   int
+	waiting  int   // Read calls blocked for data
 	eof      bool  // peer closed its side: EOF after the queue drains
 	rerr     error // injected / reset: returned by Read at once
 	closed   bool  // this side closed
@@ -91,7 +92,9 @@ func (e *End) Read(p []byte) (int, error) {
 			e.mu.Unlock()
 			return 0, io.EOF
 		}
+		e.waiting++
 		e.cond.Wait()
+		e.waiting--
 	}
 	n := 0
 	for len(e.segs) > 0 && n < len(p) {
@@ -261,6 +264,14 @@ func (e *End) Queued() int {
 	e.mu.Lock()
 	defer e.mu.Unlock()
 	return e.queued
+}
+
+// ReaderIdle reports whether a Read of this End is blocked with nothing queued: the reader has
+// consumed everything written so far and has come back for more.
+func (e *End) ReaderIdle() bool {
+	e.mu.Lock()
+	defer e.mu.Unlock()
+	return e.waiting > 0 && e.queued == 0
 }
 
 // WaitDrained blocks until everything written to this End has been read,
